@@ -18,6 +18,7 @@ class FakeSock(object):
         self.peer_closed = False    # far side closed its sending direction
         self.closed = False         # ioflo side closed the socket
         self.shut = False
+        self.stall_after = None     # the far side stops reading: once this many bytes were accepted, send would block
 
     # -- far side (harness) -------------------------------------------------
     def deliver(self, data):
@@ -56,6 +57,11 @@ class FakeSock(object):
     def send(self, data):
         if self.closed:
             raise OSError(errno.EBADF, "send on closed fake socket")
+        if self.stall_after is not None:
+            room = self.stall_after - len(self.sent)
+            if room <= 0:
+                raise BlockingIOError(errno.EAGAIN, "fake socket would block (peer is not reading)")
+            data = bytes(data)[:room]
         self.sent.extend(data)
         return len(data)
 
